@@ -11,7 +11,6 @@ from harness import core
 ID = 'C19'
 TITLE = 'Invalid formulas are isolated and valid ones mean what they say'
 PROPS = ['Props/C19']
-DISABLED = True
 RULE = ('texts: 1-6 fragments (Python statements, `$name`, unterminated strings/brackets, comments, trailing '
         'backslashes, tabs, blank and whitespace-only lines, form feed, non-ASCII whitespace, astral characters) '
         'joined by "\\n", "\\r\\n" or bare "\\r", plus random strings over a small alphabet; formulas for the '
@@ -282,7 +281,8 @@ def correspond(ctx):
 
   def run(job):
     name, check, cases, _used, _what, shard = job
-    return job, ctx.run_cases(name, IMPORTS, check, cases, shard=shard, extra_defs=EQ)
+    return job, ctx.run_cases(name, IMPORTS, check, cases, shard=min(shard, 1000), timeout=ctx.n(400, 1800),
+                              extra_defs=EQ)
   with concurrent.futures.ThreadPoolExecutor(max_workers=4) as ex:
     for job, bad in ex.map(run, jobs):
       for i in bad[:3]:
@@ -400,7 +400,8 @@ def dollar_cases(ctx, formulas):
       segs = with_mark(token_stream(f0))
     except Exception:              # pylint: disable=broad-except
       segs = None
-    if segs is None:
+    if segs is None or (segs and segs[-1][0] == 'O' and segs[-1][1].endswith('$')):
+      # (the model's token streams do not end in a string/comment token whose last character is `$`)
       ctx.bump('corr:dollar skipped (outside the model)')
       continue
     ks = core.coq_list([coq_tok(k, s) for k, s in segs])
